@@ -81,7 +81,7 @@ def run(ctx):
     from pyamg.classical import interpolate as interp
     rng = ctx.sub('m')
     cases, meta = [], []
-    nmat = 40 if not ctx.thorough else 300
+    nmat = 120 if not ctx.thorough else 300
     if ctx.search:
         nmat = 150
     for it in range(nmat):
